@@ -928,6 +928,10 @@ class RWMH(_AbstractSampler):
             setattr(self, key, kwargs[key])
             kwargs.pop(key)
 
+        # A per-dimension factor left over from an earlier autotuned run on this object
+        # must not scale the proposals of this run.
+        self._stepsize_non_scalar_part = 1.0
+
         # Autotuning -------------------------------------------------------------------
         if self.autotuning:
             assert self.learning_rate > 0.5 and self.learning_rate <= 1.0, (
